@@ -1,6 +1,10 @@
 package odt
 
-import "encoding/xml"
+import (
+	"encoding/xml"
+	"strconv"
+	"strings"
+)
 
 // ODF XML namespaces
 const (
@@ -47,6 +51,12 @@ type paragraphXML struct {
 	StyleName string    `xml:"style-name,attr"`
 	Spans     []spanXML `xml:"span"`
 	Text      string    `xml:",chardata"`
+
+	// Content is the whole text of the paragraph in document order (set when the
+	// paragraph is decoded from XML): character data, spans, links, tabs, line
+	// breaks and spaces interleaved as authored.
+	Content string `xml:"-"`
+	ordered bool
 }
 
 // headingXML represents a heading element (<text:h>).
@@ -56,6 +66,145 @@ type headingXML struct {
 	OutlineLevel string    `xml:"outline-level,attr"`
 	Spans        []spanXML `xml:"span"`
 	Text         string    `xml:",chardata"`
+
+	// Content is the whole heading text in document order (see paragraphXML).
+	Content string `xml:"-"`
+	ordered bool
+}
+
+// UnmarshalXML decodes a paragraph keeping its mixed content in document order.
+func (p *paragraphXML) UnmarshalXML(d *xml.Decoder, start xml.StartElement) error {
+	p.XMLName = start.Name
+	for _, a := range start.Attr {
+		if a.Name.Local == "style-name" {
+			p.StyleName = a.Value
+		}
+	}
+	var direct, content strings.Builder
+	if err := decodeInline(d, &direct, &content, &p.Spans); err != nil {
+		return err
+	}
+	p.Text, p.Content, p.ordered = direct.String(), content.String(), true
+	return nil
+}
+
+// UnmarshalXML decodes a heading keeping its mixed content in document order.
+func (h *headingXML) UnmarshalXML(d *xml.Decoder, start xml.StartElement) error {
+	h.XMLName = start.Name
+	for _, a := range start.Attr {
+		switch a.Name.Local {
+		case "style-name":
+			h.StyleName = a.Value
+		case "outline-level":
+			h.OutlineLevel = a.Value
+		}
+	}
+	var direct, content strings.Builder
+	if err := decodeInline(d, &direct, &content, &h.Spans); err != nil {
+		return err
+	}
+	h.Text, h.Content, h.ordered = direct.String(), content.String(), true
+	return nil
+}
+
+// fullText returns the paragraph text in document order.
+func (p paragraphXML) fullText() string {
+	if p.ordered {
+		return p.Content
+	}
+	return joinTextAndSpans(p.Text, p.Spans)
+}
+
+// fullText returns the heading text in document order.
+func (h headingXML) fullText() string {
+	if h.ordered {
+		return h.Content
+	}
+	return joinTextAndSpans(h.Text, h.Spans)
+}
+
+// joinTextAndSpans is the order-less fallback for values not decoded from XML.
+func joinTextAndSpans(text string, spans []spanXML) string {
+	var sb strings.Builder
+	sb.WriteString(text)
+	for _, span := range spans {
+		sb.WriteString(span.Text)
+	}
+	return sb.String()
+}
+
+// decodeInline reads the mixed content of a paragraph-like element up to its end
+// tag. direct receives the character data that is an immediate child, content
+// everything in document order: character data, <text:span> and <text:a>
+// (recursively), <text:tab/>, <text:line-break/> and <text:s/>. Top-level spans
+// are also collected (with their full text) for run formatting. Notes,
+// annotations and other non-text children are skipped.
+func decodeInline(d *xml.Decoder, direct, content *strings.Builder, spans *[]spanXML) error {
+	for {
+		tok, err := d.Token()
+		if err != nil {
+			return err
+		}
+		switch t := tok.(type) {
+		case xml.CharData:
+			if direct != nil {
+				direct.Write(t)
+			}
+			content.Write(t)
+		case xml.StartElement:
+			switch t.Name.Local {
+			case "span":
+				span := spanXML{XMLName: t.Name}
+				for _, a := range t.Attr {
+					if a.Name.Local == "style-name" {
+						span.StyleName = a.Value
+					}
+				}
+				var inner strings.Builder
+				if err := decodeInline(d, nil, &inner, nil); err != nil {
+					return err
+				}
+				span.Text = inner.String()
+				content.WriteString(span.Text)
+				if spans != nil {
+					*spans = append(*spans, span)
+				}
+			case "a":
+				if err := decodeInline(d, nil, content, spans); err != nil {
+					return err
+				}
+			case "tab":
+				content.WriteString("\t")
+				if err := d.Skip(); err != nil {
+					return err
+				}
+			case "line-break":
+				content.WriteString("\n")
+				if err := d.Skip(); err != nil {
+					return err
+				}
+			case "s":
+				n := 1
+				for _, a := range t.Attr {
+					if a.Name.Local == "c" {
+						if v, err := strconv.Atoi(a.Value); err == nil && v > 0 {
+							n = v
+						}
+					}
+				}
+				content.WriteString(strings.Repeat(" ", n))
+				if err := d.Skip(); err != nil {
+					return err
+				}
+			default:
+				if err := d.Skip(); err != nil {
+					return err
+				}
+			}
+		case xml.EndElement:
+			return nil
+		}
+	}
 }
 
 // spanXML represents a text span with formatting (<text:span>).
